@@ -1,7 +1,8 @@
 //! C18: a finished flush leaves no garbage and unblocks ingestion.
 //! Same histories as C08; after every step the recursive listing of db_path and the catalogue file are read.
-//!   model line = configuration + history (+ catalogue observed after each flush) + `L<listing>` (for the spec);
-//!   implementation output = `L<listing> C<catalogue>`.
+//!   model line = configuration + history (+ catalogue observed after each flush) + `L<listing>` + `E<effects>` (for the spec);
+//!   implementation output = `L<listing> C<catalogue> E<effect phases of the step>` (stores / removals in the order
+//!   the implementation performed them, through the `set_fs_callback` hook).
 //! The model predicts both (file names through the implementation's own naming functions); the spec is judged
 //! after every completed flush: listing = {meta} + files of the catalogue on disk, nothing else.
 //! Latency stream: back-to-back ingestion with `max_wal_size_bytes = 1` must keep returning (the background
@@ -11,9 +12,12 @@ mod store_common;
 use store_common::*;
 use vharness::*;
 
-fn latency_case(n: usize, io: usize, combine: u64) -> (String, String, String) {
+/// Generous per-call deadline (the machine is shared): the background flush thread polls once per second.
+const LAT_DEADLINE_S: u64 = 45;
+
+fn latency_case(n: usize, io: usize, combine: u64, cthreads: usize) -> (String, String, String) {
     let dir = tempfile::tempdir().unwrap();
-    let cfg = Cfg { wal_bytes: 1, io, combine, ..Cfg::plain() };
+    let cfg = Cfg { wal_bytes: 1, io, combine, cthreads, ..Cfg::plain() };
     let mut sut = Sut::open(dir.path(), &cfg);
     let t0 = std::time::Instant::now();
     let mut worst = 0u128;
@@ -22,7 +26,7 @@ fn latency_case(n: usize, io: usize, combine: u64) -> (String, String, String) {
         let db = sut.db.clone().unwrap();
         let ev = event_buffer(&[bat("t", &[("a", vec![Cell::Int(i as i64)])])]);
         let t1 = std::time::Instant::now();
-        match with_deadline(15, move || ingest_sync(&db, ev)) {
+        match with_deadline(LAT_DEADLINE_S, move || ingest_sync(&db, ev)) {
             None => sut.dead = Some("hang:ingest".into()),
             Some(Err(p)) => { sut.dead = Some("panic:ingest".into()); sut.panic_detail = p; }
             Some(Ok(())) => {}
@@ -30,7 +34,7 @@ fn latency_case(n: usize, io: usize, combine: u64) -> (String, String, String) {
         worst = worst.max(t1.elapsed().as_millis());
     }
     let out = match &sut.dead { Some(d) => d.clone(), None => "returned".to_string() };
-    (format!("LAT {} io={} combine={}", n, io, combine), out, format!("{} back-to-back ingests with max_wal_size_bytes=1: total {} ms, slowest call {} ms {}", n, t0.elapsed().as_millis(), worst, sut.panic_detail))
+    (format!("LAT {} io={} combine={} cthreads={}", n, io, combine, cthreads), out, format!("{} back-to-back ingests with max_wal_size_bytes=1 (each call after the first finds the accounted log size above the limit and waits for the background flush): total {} ms, slowest call {} ms {}", n, t0.elapsed().as_millis(), worst, sut.panic_detail))
 }
 
 fn main() {
@@ -38,19 +42,20 @@ fn main() {
     quiet_panics();
     let mut rng = Rng::new(args.seed);
     let mut cases = Cases::create(&args.out);
+    install_fs_recorder();
     let null_loss = probe_null_loss();
     let tables: Vec<String> = TABLE_POOL[..3].iter().map(|s| s.to_string()).collect();
     let mut cols = plain_column_pool();
     cols.push(long_name());      // key of its sub-partition is a hash (not file-system safe)
     cols.push("UPPER".to_string());
     let jobs = standard_jobs(&args, &mut rng, &tables, &cols, null_loss);
-    let lat = std::thread::spawn(move || vec![latency_case(5, 1, 4), latency_case(4, 4, 1)]);
+    let lat = std::thread::spawn(move || vec![latency_case(5, 1, 4, 1), latency_case(4, 4, 1, 2), latency_case(3, 4, 0, 2)]);
     let results = par_map(jobs, 8, |job: Job| { let obs = run_history(&job.cfg, &job.steps); (job, obs) });
     for (job, obs) in results {
         for k in 0..obs.len() {
             let ltok = listing_tok(&obs[k].listing);
-            let line = format!("{} {}", history_line(&job.cfg, &obs, k), ltok);
-            let imp = if obs[k].dead { obs[k].dump.clone() } else { format!("{} {}", ltok, meta_tok(&obs[k].meta)) };
+            let line = format!("{} {} {}", history_line(&job.cfg, &obs, k), ltok, obs[k].effects);
+            let imp = if obs[k].dead { obs[k].dump.clone() } else { format!("{} {} {}", ltok, meta_tok(&obs[k].meta), obs[k].effects) };
             let note = if k + 1 == obs.len() || obs[k].dead { format!("{} | {}", describe(&job.cfg, &job.steps[..=k]), obs[k].detail) } else { String::new() };
             cases.push(&format!("{}:{}", job.class, obs[k].kind), &line, &imp, &note);
         }
